@@ -5,6 +5,7 @@ import (
 	"go/ast"
 	"go/token"
 	"go/types"
+	"os"
 	"strings"
 
 	"golang.org/x/tools/go/types/typeutil"
@@ -74,6 +75,7 @@ func (fc *FnCtx) call(st *State, e *ast.CallExpr) []Term {
 		}
 	}
 	var args []Term
+	var ptrArgs []Term
 	for i, a := range e.Args {
 		var pt types.Type
 		if sig != nil {
@@ -95,7 +97,21 @@ func (fc *FnCtx) call(st *State, e *ast.CallExpr) []Term {
 		}
 		v = fc.valueFor(st, a, pt)
 		args = append(args, v)
+		// a pointer to a struct handed to code outside the module may be filled in through it
+		// (json/sql decoding by reflection): remember it so the call havocs the pointed-to object
+		if at := fc.typeOf(a); at != nil && fn != nil && !inModule(fn.Pkg()) {
+			if p, ok := at.Underlying().(*types.Pointer); ok {
+				if _, isStruct := p.Elem().Underlying().(*types.Struct); isStruct && !isTimeType(p.Elem()) {
+					pv := v
+					pv.T = at
+					ptrArgs = append(ptrArgs, pv)
+				}
+			}
+		}
 	}
+	savedPtrArgs := fc.ptrArgs
+	fc.ptrArgs = ptrArgs
+	defer func() { fc.ptrArgs = savedPtrArgs }()
 
 	// anchored clauses before the call
 	fc.runAnchors(st, "call", ctext, ord, e.Pos(), nil)
@@ -204,13 +220,37 @@ func (fc *FnCtx) unknownCall(st *State, e *ast.CallExpr, fn *types.Func, sig *ty
 // havocForCall havocs every heap key and global that the callee may write, per the frame rules. Returns the keys havocked.
 func (fc *FnCtx) havocForCall(st *State, fn *types.Func, name string) []string {
 	var out []string
+	var willHavoc []any
 	for _, k := range fc.stateKeys(st) {
-		if k == allocKey {
-			continue
+		// kind 1 (fresh-only writers): the callee can change this field only on objects it allocates itself,
+		// i.e. at references above the current allocation mark, about which nothing has been assumed: the
+		// array is left as it is (allocation is monotone: our own later allocations are above the callee's)
+		if k != allocKey && fc.eng.frame.WriteKind(fc, fn, k) == 2 {
+			willHavoc = append(willHavoc, k)
 		}
-		if !fc.eng.frame.MayWrite(fc, fn, k) {
-			continue
+	}
+	// package invariants that read a location this call may write: must hold before the call (the callee
+	// relies on them) and hold again after it (every writer re-establishes them)
+	if os.Getenv("GOVC_DEBUG_FRAME") != "" && fc.pass == 2 && fc.dry == 0 {
+		var ks []string
+		for _, k := range willHavoc {
+			ks = append(ks, fc.keyName(k))
 		}
+		fmt.Fprintf(os.Stderr, "FRAME %s: call %s at %s havocs %v\n", fc.name, name, fc.posStr(fc.curPos), ks)
+	}
+	touched := fc.invsTouchedBy(willHavoc)
+	if len(touched) > 0 && fc.inlineDepth == 0 {
+		fc.invCallOrd++
+		for i, inv := range touched {
+			fc.assert(st, fmt.Sprintf("inv-global#%s@call#%d", clauseLabel(inv, i), fc.invCallOrd), "inv-global", fc.invTerm(st, inv), fc.curPos, "invariant "+inv.Src+"   before call "+name)
+		}
+	}
+	defer func() {
+		for _, inv := range touched {
+			fc.assume(st, fc.invTerm(st, inv))
+		}
+	}()
+	for _, k := range willHavoc {
 		old := st.vars[k]
 		nv := fc.freshSort(fc.keyName(k), old.Sort)
 		nv.T = old.T
@@ -218,6 +258,16 @@ func (fc *FnCtx) havocForCall(st *State, fn *types.Func, name string) []string {
 		out = append(out, fc.keyName(k))
 		if hk, ok := k.(heapKey); ok && hk.Kind == "F" {
 			fc.preserveOwned(st, hk, old, nv)
+			fc.wlog = append(fc.wlog, wrec{hk, "*"})
+		}
+		if hk, ok := k.(heapKey); ok && hk.Kind == "X" && hk.ID == "clock" {
+			fc.assume(st, boolT(fmt.Sprintf("(>= %s %s)", nv.S, old.S))) // time does not go backwards
+		}
+	}
+	// objects passed by pointer to code outside the module may be written through the pointer
+	if fn != nil && !inModule(fn.Pkg()) {
+		for _, p := range fc.ptrArgs {
+			fc.havocPointee(st, p, 0)
 		}
 	}
 	// allocation mark only grows
